@@ -41,6 +41,7 @@ OPERATORS.update({k: numeric_wrap(v) for k, v in {
     '+': lambda x, y: x + y,
     '-': lambda x, y: x - y,
     'U-': lambda x: -x,
+    'U--': lambda x: -(-x),  # `--x`: `x` as a number.
     '*': lambda x, y: x * y,
     '/': lambda x, y: (x / y) if y else Error.errors['#DIV/0!'],
     '^': lambda x, y: _power(x, y),
